@@ -50,7 +50,7 @@ is `size` wide, reads back as the double nearest to the decimal emitted — whic
 it was rounded to, even when rounding moved it across a power of ten). -/
 theorem law_flt_E (f : Field) (dec : Nat) (fmt c : Char) (hk : f.kind = .flt dec fmt [c])
     (hfmt : fmt = 'E' ∨ fmt = 'e') (hsep : sepOk [c] = true)
-    (neg : Bool) (m : Nat) (e : Int) (hwf : wfn m e) (hdec : dec ≤ 12)
+    (neg : Bool) (m : Nat) (e : Int) (hwf : wfE m e dec) (hdec : dec ≤ 12)
     (hfits : Spec.C02.fits f (.dbl (.fin neg m e)) = true) :
     RenderLaw f (.dbl (.fin neg m e)) := by
   obtain ⟨hc1, hc2, hc3⟩ := sep_facts hsep
@@ -58,10 +58,7 @@ theorem law_flt_E (f : Field) (dec : Nat) (fmt c : Char) (hk : f.kind = .flt dec
   have hfits0 := hfits
   simp only [Spec.C02.fits, Bool.and_eq_true, beq_iff_eq] at hfits
   obtain ⟨⟨hgeo, _⟩, hren⟩ := hfits
-  have hm0 : m ≠ 0 := by
-    intro h0; subst h0
-    have := Proofs.Nearest.two_pow_pos 52
-    have := hwf.1; omega
+  have hm0 : m ≠ 0 := hwf.1
   obtain ⟨r, hr, hfit⟩ := round_of_fits_E f dec fmt c hk hfmt neg m e hm0 hfits0
   obtain ⟨t, h1, h2, h3, h4, _⟩ := fltE_core f dec fmt c hk hfmt hc1 hc2 hc3 hc4 hc5 hc6 neg m e hwf hdec r hr hfit
   have hpf : Dbl.pyFloat (replace t [c] ['.']) = some r := by
@@ -108,7 +105,7 @@ theorem law_flt_E_zero (f : Field) (dec : Nat) (fmt c : Char) (hk : f.kind = .fl
 def FloatFE (f : Field) (v : Val) : Prop :=
   ∀ dec fmt sep, f.kind = .flt dec fmt sep → v.isNull = true ∨
     ((fmt = 'F' ∨ fmt = 'f') ∧ dec ≤ 323 ∧ ∃ neg m e, v = .dbl (.fin neg m e) ∧ Proofs.FloatLoop.wfs m e) ∨
-    ((fmt = 'E' ∨ fmt = 'e') ∧ ∃ neg m e, v = .dbl (.fin neg m e) ∧ (wfn m e ∨ m = 0))
+    ((fmt = 'E' ∨ fmt = 'e') ∧ ∃ neg m e, v = .dbl (.fin neg m e) ∧ (wfE m e dec ∨ m = 0))
 
 /-- **The full law from the decidable domain guard, floats in either notation included.** -/
 theorem renderLaw_of_domain_FE (f : Field) (v : Val) (h : fieldInDomain f v = true)
@@ -119,7 +116,7 @@ theorem renderLaw_of_domain_FE (f : Field) (v : Val) (h : fieldInDomain f v = tr
   · exact renderLaw_of_domain_F f v h hdate hbig hF
   · -- a non-missing float in E notation
     have : ∃ dec fmt sep, f.kind = .flt dec fmt sep ∧ (fmt = 'E' ∨ fmt = 'e') ∧
-        ∃ neg m e, v = .dbl (.fin neg m e) ∧ (wfn m e ∨ m = 0) := by
+        ∃ neg m e, v = .dbl (.fin neg m e) ∧ (wfE m e dec ∨ m = 0) := by
       apply Classical.byContradiction
       intro hno
       apply hF
@@ -174,7 +171,7 @@ theorem clauses_FE (f : Field) (v : Val) (r : List Char) (hd : fieldInDomain f v
   by_cases hF : FloatF f v
   · exact clauses_F f v r hd hF hrend
   · have : ∃ dec fmt sep, f.kind = .flt dec fmt sep ∧ (fmt = 'E' ∨ fmt = 'e') ∧
-        ∃ neg m e, v = .dbl (.fin neg m e) ∧ (wfn m e ∨ m = 0) := by
+        ∃ neg m e, v = .dbl (.fin neg m e) ∧ (wfE m e dec ∨ m = 0) := by
       apply Classical.byContradiction
       intro hno
       apply hF
@@ -199,10 +196,7 @@ theorem clauses_FE (f : Field) (v : Val) (r : List Char) (hd : fieldInDomain f v
     obtain ⟨hc1, hc2, hc3⟩ := sep_facts hsep
     obtain ⟨hc4, hc5, hc6⟩ := sep_factsE hsep
     rcases hwf with hwf | rfl
-    · have hm0 : m ≠ 0 := by
-        intro h0; subst h0
-        have := Proofs.Nearest.two_pow_pos 52
-        have := hwf.1; omega
+    · have hm0 : m ≠ 0 := hwf.1
       obtain ⟨r', hr', hfit⟩ := round_of_fits_E f dec fmt c hk hfmt neg m e hm0 hfits
       obtain ⟨t, h1, _, _, _, m', e', k, _, hsci, hteq⟩ :=
         fltE_core f dec fmt c hk hfmt hc1 hc2 hc3 hc4 hc5 hc6 neg m e hwf hdec r' hr' hfit
@@ -266,6 +260,55 @@ example :
   · intro dec fmt sep hk
     simp only [Field.mk', Kind.flt.injEq] at hk
     obtain ⟨rfl, rfl, rfl⟩ := hk
-    exact Or.inr (Or.inr ⟨Or.inl rfl, false, _, _, rfl, Or.inl ⟨by decide, by decide, by decide, by decide⟩⟩)
+    exact Or.inr (Or.inr ⟨Or.inl rfl, false, _, _, rfl, Or.inl (wfE_of_wfn _ _ _ ⟨by decide, by decide, by decide, by decide⟩ (by decide))⟩)
+
+end Props.C01
+
+namespace Props.C01
+open Cfi Cfi.Text Spec.C01 Proofs.FloatE Proofs.FloatELaw
+
+/-- non-vacuity for a SUBNORMAL value: `12345678·2^-1074` (about 6.0996e-317) in an E-notation
+field of three decimals is admitted by `wfE` (its last emitted digit has place value
+`10^-320`), meets every premise of `main_FE_full`, and the cycle writes `6.100E-317` and reads
+back `12346537·2^-1074` -/
+example :
+    let fs := [Field.mk' (.flt 3 'E' ['.']) 12 0]
+    let vs := [Val.dbl (.fin false 12345678 (-1074))]
+    inDomain fs vs = true ∧ (∀ fv ∈ fs.zip vs, FloatFE fv.1 fv.2) ∧
+    cycle fs vs = some ⟨"  6.100E-317\n".toList, [Val.dbl (.fin false 12346537 (-1074))],
+      "  6.100E-317\n".toList⟩ := by
+  refine ⟨by decide +kernel, ?_, by decide +kernel⟩
+  intro fv hfv
+  simp only [List.zip_cons_cons, List.zip_nil_right, List.mem_cons, List.not_mem_nil, or_false] at hfv
+  subst hfv
+  intro dec fmt sep hk
+  simp only [Field.mk', Kind.flt.injEq] at hk
+  obtain ⟨rfl, rfl, rfl⟩ := hk
+  exact Or.inr (Or.inr ⟨Or.inl rfl, false, _, _, rfl,
+    Or.inl ⟨by decide, by decide, by decide, by decide, by decide +kernel⟩⟩)
+
+end Props.C01
+
+namespace Props.C01
+open Cfi Cfi.Text Spec.C01 Proofs.FloatE
+
+/-- **K2, the counterexample below the range of the E-notation law** (`KNOWN_FINDINGS.txt`,
+`trigger=e_subnormal_coarse_grid`): the subnormal double `21·2^-1074` (about 1.04e-322) in an
+E-notation field of one decimal is in the decidable domain of C01, the cycle is text-stable
+(`9.9E-323` both times, read back as `20·2^-1074`), and yet `Spec.C01.holds` is false — the text
+is more than half a unit of its last digit away from the value. The value is not admitted by
+`wfE` (its last emitted digit would have place value `10^-323`), which is exactly the premise
+`law_flt_E` needs. Kernel-evaluated on the model; the harness replays the same input on the
+implementation (`corpus/C01/K2_*.json`). -/
+theorem subnormal_E_counterexample :
+    let fs := [Field.mk' (.flt 1 'E' ['.']) 10 0]
+    let vs := [Val.dbl (.fin false 21 (-1074))]
+    inDomain fs vs = true ∧ ¬ wfE 21 (-1074) 1 ∧
+    ∃ o, cycle fs vs = some o ∧ o.written = "  9.9E-323\n".toList ∧ o.rewritten = o.written ∧
+      o.readBack = [Val.dbl (.fin false 20 (-1074))] ∧ holds fs vs o = false := by
+  refine ⟨by decide +kernel, ?_, ⟨"  9.9E-323\n".toList, [Val.dbl (.fin false 20 (-1074))], "  9.9E-323\n".toList⟩,
+    by decide +kernel, rfl, rfl, rfl, by decide +kernel⟩
+  intro h
+  exact absurd h.2.2.2.2 (by decide +kernel)
 
 end Props.C01
